@@ -5293,6 +5293,9 @@ def _enforce_dtype(*args, **kwargs):
     function = kwargs.pop("enforce_dtype_function")
 
     result = function(*args, **kwargs)
+    if result is np.ma.masked:
+        # numpy.ma returns the float64 ``masked`` singleton for fully masked 0-d results
+        return result
     if hasattr(result, "dtype") and dtype != result.dtype and dtype != object:
         if not np.can_cast(result, dtype, casting="same_kind"):
             raise ValueError(
